@@ -405,6 +405,17 @@ impl World for MultiWorld {
                             out.devs.push((format!("{}|CONNSTATE|transaction state differs (impl multi={} queued={}, model multi={} queued={})", self.spec.prop, r.in_multi, r.queued, m.in_multi, m.queue.len()), json!({"conn": i})));
                             out.state_bad = true;
                         }
+                        // the set of watched keys (EXEC, DISCARD and UNWATCH forget all of them); an UNWATCH between
+                        // MULTI and EXEC may or may not have taken effect yet
+                        if !m.unwatch_in_multi {
+                            let mut imp: Vec<(usize, Vec<u8>)> = r.watched_detail.iter().map(|(db, k, _)| (*db, k.clone())).collect();
+                            imp.sort();
+                            let modl: Vec<(usize, Vec<u8>)> = m.watched.keys().cloned().collect();
+                            if imp != modl {
+                                out.devs.push((format!("{}|CONNSTATE|watched keys differ (impl {}, model {})", self.spec.prop, imp.len(), modl.len()), json!({"conn": i, "impl": imp.iter().map(|(d, k)| format!("{}:{}", d, String::from_utf8_lossy(k))).collect::<Vec<_>>()})));
+                                out.state_bad = true;
+                            }
+                        }
                         if r.db != m.db {
                             out.devs.push((format!("{}|CONNSTATE|selected database differs (impl {}, model {})", self.spec.prop, r.db, m.db), json!({"conn": i})));
                             out.state_bad = true;
